@@ -1090,7 +1090,8 @@ macro_rules! v5_server {
                     p.subscription_identifiers_available = v;
                 }
                 if let Some(v) = plan2.max_packet_size {
-                    p.max_packet_size = Some(v);
+                    // 0 = the handshake service lifts the configured limit for this connection
+                    p.max_packet_size = if v == 0 { None } else { Some(v) };
                 }
                 if let Some(v) = plan2.session_expiry {
                     p.session_expiry_interval_secs = Some(v);
